@@ -522,3 +522,40 @@ func minI(a, b int) int {
 	}
 	return b
 }
+
+// crossTriple builds the entry (key, declared, R || S) whose signature satisfies the equation IF the
+// verifier took the POINT [a]B for the key while hashing the bytes `key`, and hashed the message
+// `hashed` instead of `declared`: S = r + H(dom2 || R || key || hashed) * a, R = [r]B. With a, key,
+// hashed taken from a neighbouring entry or an earlier call it is the witness of a mixed-up reading
+// (a component of entry i read from entry j in one of its two uses); the model decides what the right
+// verdict is (false unless the pieces happen to belong together).
+func crossTriple(a *big.Int, key, hashed, declared []byte, rSeed int64, vs variantSpec) triple {
+	r := new(big.Int).Add(new(big.Int).Lsh(big.NewInt(rSeed+3), 200), big.NewInt(rSeed*7919+11))
+	r.Mod(r, ref.L)
+	R := ref.BaseMul(r).Encode()
+	h := ref.HashModL(ref.Dom2(vs.v, []byte(vs.ctx)), R, key, hashed)
+	S := new(big.Int).Mul(h, a)
+	S.Add(S, r)
+	S.Mod(S, ref.L)
+	return triple{append([]byte{}, key...), append([]byte{}, declared...), append(append([]byte{}, R...), ref.ToLE(S, 32)...)}
+}
+
+// heldResults: the caller keeps n results of successive calls, then uses each in turn as its own buffer
+// (append beyond the length, overwrite the spare capacity) and re-reads all the others: results carved
+// out of one shared block, or backed by library state, run into each other. Returns the indices
+// (changed, appendedTo) of the first damage, or (-1, -1).
+func heldResults(got, want [][]byte) (int, int) {
+	for i := range got {
+		_ = append(got[i], bytes.Repeat([]byte{0xEE}, 72)...)
+		full := got[i][:cap(got[i])]
+		for j := len(got[i]); j < len(full); j++ {
+			full[j] = 0xDD
+		}
+		for j := range got {
+			if !bytes.Equal(got[j], want[j]) {
+				return j, i
+			}
+		}
+	}
+	return -1, -1
+}
